@@ -1090,6 +1090,8 @@ def _static_stamps(prog, chk, R, ex, ev, rule='R08.4'):
                        'a statement overwrites a field slot with a default-constructed Value: the slot loses its kind and its static class, so the next object assigned to it by '
                        'bare name keeps its dynamic class', key='stamp:erase:%s:%s' % (f.short, SX.show(l0)[:30]))
     chk.count('statement-level slot stores examined for erasure', ner, 3)
+    if rule != 'R08.4':
+        return      # (the binding-site part is what other properties share; labels, siblings and the null cost are C08's own)
     _signature_labels(prog, chk, R)
     _base_inheritance_siblings(prog, chk, R)
     # (c) a stamped null reference is costed by its stamp, only the literal null costs 3
